@@ -2,19 +2,38 @@ CONFIG = dict(
     id="C13",
     engine="pure",
     technique="Lean 4 theorems (shape predicate = handler shape, route table = declarative description for every entry list, "
-              "exactly-once completion / no escaping panic for every route, payload, serializer, context and disciplined handler, dispatcher answers once) "
-              "over a hand-written model of apimapper + differential correspondence with the real code on a method zoo",
+              "exactly-once completion / no escaping panic as statements about EXECUTIONS (event lists) of an event-emitting, panicking program "
+              "that mirrors CallWithSerialize / Call / CallMethod / SafeCall / Dispatch / handleRequest statement by statement, the summary model "
+              "proved to be what those executions do) over a hand-written model of apimapper + differential correspondence with the real code on a method zoo",
     level_text="Machine-checked proof in Lean 4 that the model of formater.IsValidMethod / APIContainer / APICollection / CallWithSerialize / "
-               "APIDispatcher exposes exactly the exported handler-shaped methods under group.method with the naming applied (for every list of "
-               "registered entries and options), decodes into the declared message type and invokes exactly that handler once, completes a "
-               "completion function exactly once on every path except a request on a notify-shaped method (D11, known finding; the full statement "
-               "is refuted by a concrete witness and D11 is proved to be the only such path), and lets no panic escape.  The model is tied to the Go "
-               "code on every run by executing both on a zoo of ~75 real methods plus thousands of synthetic reflect.Method shapes, all naming "
-               "options, JSON/protobuf/nil serializers, routes from a malformed stream and valid/undecodable/empty payloads; the property predicate "
-               "is evaluated on the implementation's own observations with the declarative route table.",
+               "APIDispatcher / Service.handleRequest exposes exactly the exported handler-shaped methods under group.method with the naming applied "
+               "(for every list of registered entries and options), decodes into the declared message type and invokes exactly that handler, and - "
+               "stated on executions, i.e. lists of the events 'handler entered' / 'completion function invoked (by whom, with an error?)' emitted by a "
+               "program with panic and defer/recover that is written statement by statement after the Go code - runs a handler at most once in every "
+               "execution, invokes a completion function exactly once on every path except a request on a notify-shaped method (D11, known finding; "
+               "full statement refuted, D11 proved the only such path), makes every error path the single event 'framework completion with an error', "
+               "never lets the framework complete without an error, and lets no panic escape when the serializer itself does not panic.  The summary "
+               "model (Outcome + completions table) the older theorems are about is PROVED to be what the executions do (execution_refines_summary, "
+               "dispatch_execution_refines_summary).  Proved to be FALSE for the code as it is, each with a concrete witness reproduced on the real code "
+               "on every run: exactly-once for a handler that completes and then panics (two completions; two ServiceResponses for one ReqId behind the "
+               "dispatcher), 'exposed = handler-shaped' when the 4th parameter must accept the completion function (func(int)/func()/func with result are "
+               "exposed and can never be invoked: exposed_route_callable_iff), no-escaping-panic when Unmarshal panics (user serializer, or a message "
+               "type whose UnmarshalJSON panics under the JSON serializer: outside SafeCall), answered-once for an unknown route at the service level "
+               "when the legacy receiver answers too (Dispatch answers 'no method', returns false, handleRequest falls through).  The model is tied to the "
+               "Go code on every run by executing both on a zoo of ~80 real methods plus thousands of synthetic reflect.Method shapes, all naming options, "
+               "JSON/protobuf/nil/panicking serializers, routes from a malformed stream, valid/undecodable/empty payloads, caller-supplied arguments that are "
+               "assignable but not identical to the declared type (named pointer types), requests without sender, Service.Receive with absent/silent/"
+               "answering legacy receivers, nil entries; the observations of the model side are printed from the executions; the property predicate is "
+               "evaluated on the implementation's own observations with the declarative route table.",
     level_note="Trusted: Lean kernel, the harness/driver line protocol, reflect facts as dumped by the harness (Kind, Implements(IContext), "
-               "AssignableTo, method sets), the serializer as an abstract function of (declared type, payload). The theorems are about the model; "
-               "the differential run ties it to the code on sampled inputs only.",
+               "AssignableTo between the declared parameter types and the dynamic types of the harness's value pool, the type of reflect.New(t.Elem()), "
+               "the zero value of a struct-typed parameter, method sets), the serializer as an abstract function of (declared type, payload) -> value | error | panic.  The theorems are about the "
+               "model; the differential run ties it to the code on sampled inputs only.  An arbitrary IAPIFormatter handed to SetFormater is a "
+               "parameter of the model (buildX, custom_formater_can_escape, escapes_iff_message_type_has_no_elem); the harness drives the default formater, nil, and two "
+               "formaters of its own (message by value admitted: argType.Elem() panics outside SafeCall; every exported method admitted: mt.In(1) panics in Build) - "
+               "for those collections only the model is compared, the property predicate is not evaluated (its claims are about the default formater).  Not modelled: a failing remote.Deserialize in the legacy path of handleRequest (C07), completions made after "
+               "the call returned by another goroutine (the 'late' script is played after the call and compared, but a late completion whose value makes "
+               "Response panic has no SafeCall above it), concurrent Register while Registry.Build iterates, non-ASCII type names.",
     gen=["cd /verif/harness && go1.26 run ./c13/extract -repo /repo -out /verif/lean/Cell2v/Gen/C13Registry.lean"],
     lean_targets=["Cell2v.Props.C13", "modeld_c13"],
     driver="modeld_c13",
@@ -25,7 +44,16 @@ CONFIG = dict(
                        "never_completed_iff_notify_shaped", "no_escaping_panic", "call_without_cb_never_completes",
                        "malformed_route_error", "unknown_route_error", "undecodable_payload_error", "panicking_handler_error",
                        "dispatch_request_answered_once_partial", "dispatch_notify_never_answered", "dispatch_unknown_route",
-                       "registry_add_collection_atomic", "registry_same_name_same_collection", "registry_split_lookup_insert_loses"],
+                       "registry_add_collection_atomic", "registry_same_name_same_collection", "registry_split_lookup_insert_loses",
+                       "execution_refines_summary", "exec_completes_exactly_once_partial", "exec_error_paths_one_error_completion",
+                       "exec_framework_completions_are_errors", "exec_handler_runs_at_most_once", "exec_no_escaping_panic",
+                       "exec_serializer_panic_escapes", "panicking_handler_completions", "panicking_handler_completes_once_iff",
+                       "panicking_handler_completes_once_full_fails", "dispatch_complete_then_panic_answers_twice",
+                       "shape_predicate_strict_fails", "exposed_route_callable_iff", "named_pointer_parameter_invoked",
+                       "build_does_not_panic", "build_nil_entry_panics", "escapes_iff_message_type_has_no_elem", "custom_formater_can_escape",
+                       "dispatch_execution_refines_summary", "exec_dispatch_request_answered_once_partial",
+                       "request_without_sender_never_answered", "handle_request_unknown_route", "unknown_route_answered_once_full_fails",
+                       "handle_request_unknown_route_legacy_answers_twice", "handle_request_routed_is_dispatch"],
     harness_pkg="./c13",
     mode="diff",
     reset_prefix="reset",
@@ -35,40 +63,61 @@ CONFIG = dict(
                      dict(name="seed2", env={"VERIF_N": "400000"}, seed_offset=1000, timeout=800),
                      dict(name="seed3", env={"VERIF_N": "400000"}, seed_offset=2000, timeout=800)],
     },
-    trivial=r"^(ok|0|valid=0|bad-op|n=0 |ran=- comps=(-|f:err)|ret=0 ran=- comps=(-|f:err#\d+))?$",
+    trivial=r"^(ok|0|valid=0|bad-op|n=0 |ran=- comps=(-|f:err)|(ret|legacy)=0 ran=- comps=(-|f:err#\d+))?$",
     rule="corpus (D11 witness + one op per clause + a registry race) first; registry concurrency stream: in every 5th case 2-4 goroutines call "
          "Registry.AddCollection with the same fresh name inside a forced window (the harness holds the registry's write lock until the goroutine dump "
          "shows all of them parked inside AddCollection, then releases it), each handle gets an entry of its own, Registry.Build(), then every handle is "
          "asked for every route; the lock/lookup/insert structure of AddCollection is re-extracted from the source (go/ast) on every run; bounded exhaustive: every synthetic method shape with <=3 (thorough: <=4) parameters over a pool "
-         "of 33 parameter types x exported/unexported through the real IsValidMethod, every route of <=3 (thorough: <=4) segments over an 8-segment "
+         "of 34 parameter types x exported/unexported through the real IsValidMethod, every route of <=3 (thorough: <=4) segments over an 8-segment "
          "alphabet against a fixed two-entry collection (HasMethod, call with and without completion function); then op lines from one PRNG "
-         "(VERIF_SEED): every method of the zoo (8 entry types, ~75 methods: unexported, 1-5 parameters, context by value / "
-         "interface / pointer not implementing IContext / pointer-to-pointer, message by value / interface / map / slice / *int / **T, 4th parameter "
+         "(VERIF_SEED): every method of the zoo (8 entry types, ~80 methods: unexported, 1-5 parameters, context by value / "
+         "interface / pointer not implementing IContext / pointer-to-pointer, message by value / interface / map / slice / *int / **T / a NAMED pointer type / "
+         "a type whose UnmarshalJSON panics, 4th parameter "
          "non-func / func(int) / func() / named func type / func with result, variadic, results, value vs pointer receivers, promoted methods, "
-         "anonymous and unexported entry types, names colliding under a name function) and synthetic reflect.Method shapes through IsValidMethod; "
-         "cases = reset + descriptors + 1-3 collections (plain / registry / aliased / nil formater) + 1-4 entries with group name (WithGroupName/"
-         "WithName/WithInnerGroupName) and name function (none/ToLower/ToUpper/ToLowerCamelCase) + Build (and re-Build after a late Register) + 25-75 "
-         "calls: HasMethod/GetArgType, CallWithSerialize (json/proto/nil serializer), Collection.Call with typed/nil/wrong arguments, "
-         "APIDispatcher.Dispatch over several collections (request and notify); routes: 60% aimed at a real method, else case variants, 0-4 segments, "
+         "anonymous and unexported entry types, names colliding under a name function) and synthetic reflect.Method shapes through IsValidMethod; every "
+         "pointer-typed parameter is dumped with the value-pool types reflect says are assignable to it and the type reflect.New(t.Elem()) has; "
+         "cases = reset + descriptors + 1-3 collections (plain / registry / aliased / nil formater / 1 in 12 plain ones a formater of the harness's own: message-by-value admitted, or every exported method) + 1-4 entries with group name (WithGroupName/"
+         "WithName/WithInnerGroupName) and name function (none/ToLower/ToUpper/ToLowerCamelCase), in every 8th non-registry case one NIL entry (typed nil "
+         "pointer / nil interface, with or without a group name an earlier entry owns) + Build (and re-Build after a late Register) + 25-75 "
+         "calls: HasMethod/GetArgType, CallWithSerialize (json/proto/nil serializer, 1 in 40 a user serializer whose Unmarshal panics), Collection.Call "
+         "with typed/nil/wrong arguments and, for *MsgA / the named pointer type PM, the assignable-but-not-identical other one, "
+         "APIDispatcher.Dispatch over several collections (request and notify; 1 in 12 without sender), 1 in 3 of those through Service.Receive/handleRequest "
+         "with an absent / silent / answering legacy receiver, with or without a dispatcher, with an empty route; routes: 60% aimed at a real method, else case variants, 0-4 segments, "
          "empty parts, unknown group/method, random bytes; payloads valid/undecodable/empty/truncated/valid JSON value + trailing junk (extra brace, trailing comma, second document, other bytes; trailing white space still decodes); contexts nil/matching/other type; with and "
          "without completion function; handler scripts ok/err/twice/none/panic/runtime-panic/complete-then-panic/late/unserialisable value. "
          "A case is non-trivial when a handler ran, a table was non-empty or a method was accepted; distinct = distinct (op, observation) pairs",
     trusted_base=[
         "Lean 4.33.0 kernel; axioms of every property theorem audited on each run (allowed: propext, Classical.choice, Quot.sound)",
-        "hand-written model lean/Cell2v/Model/ApiMap.lean tied to the Go code by the differential run of this check (harness/c13 + modeld_c13)",
-        "reflect facts (Kind, Implements(IContext), AssignableTo(HandlerCBFunc), method sets, PkgPath) are taken from the harness dump of the real reflect.Method values",
-        "serializers abstracted as a function (declared type, payload) -> value | error given by REFERENCE decoders the harness calls directly, never through utils/serialize (which is code under test): json = the whole byte string is one JSON value (encoding/json.Valid) that encoding/json.Unmarshal stores into the type; proto = proto.Unmarshal into a proto.Message; the result is passed as hints",
+        "hand-written model lean/Cell2v/Model/ApiMap.lean (summary functions and the execution semantics callX / callWithSerializeX / dispatchX / handleRequestX / buildX) "
+        "tied to the Go code by the differential run of this check (harness/c13 + modeld_c13; the model side prints its observations from the executions)",
+        "reflect facts (Kind, Implements(IContext), AssignableTo(HandlerCBFunc), AssignableTo between declared parameter types and the dynamic types of the values the "
+        "harness passes, reflect.PtrTo(t.Elem()), method sets, PkgPath) are taken from the harness dump of the real reflect.Method values; one Go rule is built into the "
+        "model: a value of the unnamed type *E is assignable to a named pointer type with underlying type *E",
+        "serializers abstracted as a function (declared type, payload) -> value | error | panic given by REFERENCE decoders the harness calls directly, never through utils/serialize (which is code under test): json = the whole byte string is one JSON value (encoding/json.Valid) that encoding/json.Unmarshal stores into the type (a panic of the type's own UnmarshalJSON is the result 'panic'); proto = proto.Unmarshal into a proto.Message; the result is passed as hints",
         "sync.RWMutex gives mutual exclusion, so a body that looks up and inserts inside one write-locked section is one atomic step (the section structure itself is "
         "extracted from api_registry.go by harness/c13/extract into Gen/C13Registry.lean and checked by theorem registry_add_collection_atomic)",
-        "harness canonicalisation (map iteration sorted, error texts dropped, completions tagged by who issued them, panics caught by recover and mapped to 'panic')",
+        "harness canonicalisation (map iteration sorted, error texts dropped, completions tagged by who issued them, a ServiceResponse counted when it is handed to Context.Send, panics caught by recover and mapped to 'panic')",
     ],
     assumptions=[
         "handler discipline: the exactly-once guarantee is about handlers that complete exactly once and return, or panic before completing; a handler that "
-        "completes and THEN panics gets a second completion ('panic in rpc') from SafeCall (theorem complete_then_panic_completes_twice, observed on the "
-        "real code, not alarmed on); a handler that never completes or completes twice is outside the statement",
-        "the completion function passed by the caller does not itself panic (the dispatcher's own callback may: that case is modelled)",
-        "type and method names are ASCII (isExported / name functions are modelled on bytes); assignability of context and message arguments = type identity "
-        "(holds for the pointer types the shape predicate admits)",
+        "completes and THEN panics gets a second completion ('panic in rpc') from SafeCall: the full statement without the discipline hypothesis is proved false "
+        "(panicking_handler_completes_once_full_fails, dispatch_complete_then_panic_answers_twice: two ServiceResponses for one ReqId), the exact behaviour is "
+        "panicking_handler_completions, it is observed on the real code on every run and NOT alarmed on - a candidate finding for the lead to classify; "
+        "a handler that never completes or completes twice is outside the statement",
+        "the completion function passed by the caller does not itself panic (the dispatcher's own closure may: that case is modelled as a 'picky' completion function)",
+        "the serializer's Unmarshal returns (a value or an error): when it PANICS (user serializer; message type whose UnmarshalJSON panics under the JSON serializer) the panic "
+        "leaves CallWithSerialize and the completion function is never invoked (exec_serializer_panic_escapes, observed on the real code on every run, judged "
+        "'outside-statement', NOT alarmed on - a candidate finding for the lead to classify)",
+        "'exposes exactly the handler-shaped methods' is checked with 'completion function' = any func-kinded 4th parameter, as the code has it; read strictly "
+        "(the parameter must accept HandlerCBFunc) it is false (shape_predicate_strict_fails): such methods are exposed, HasMethod says true, and every call is recovered "
+        "into one error completion (exposed_route_callable_iff, reflect_mismatch_recovered; observed on the real code: ZooA.CbFuncInt / CbFuncNone / CbRetBool) - a candidate finding",
+        "service level: a request carries a sender (without one nothing is ever answered: request_without_sender_never_answered, tied), and the legacy receiver a request with an "
+        "unknown route falls through to does not answer it as well (with an answering receiver the requester gets 'no method' AND that answer: "
+        "unknown_route_answered_once_full_fails, observed on the real code, judged 'outside-statement')",
+        "entries handed to Register are not nil (a nil entry makes Build panic: build_nil_entry_panics, tied, judged 'outside-statement': start-up programmer error) and the "
+        "formater is the default one or nil (an arbitrary IAPIFormatter can make Build panic and calls escape: custom_formater_can_escape; tied for two formaters of the harness, not judged)",
+        "type and method names are ASCII (isExported / name functions are modelled on bytes); assignability of the CONTEXT argument is what reflect reports for the context "
+        "values of the harness (for a parameter the predicate admits - an unnamed pointer type implementing IContext - that is type identity)",
         "D11 (known finding C13/request-on-notify-shaped-never-completes) is pinned by the baseline test apientry::TestCall and stays: the model returns 'nothing' there",
     ],
 )
